@@ -223,8 +223,8 @@ bool Heightmap::recurse(Evaluator* e, const Tape::Handle& tape,
     Interval out = result.first;
 
     bool ret = true;
-    // If strictly negative, fill up the block and return
-    if (out.isFilled())
+    // If strictly negative (and never NaN), fill up the block and return
+    if (out.isFilled() && out.isSafe())
     {
         fill(e, tape, r);
     }
